@@ -316,7 +316,11 @@ struct Parser {
                 ++p;
                 const auto ds = strip_template(d);
                 if (!ds.empty()) {
-                    if (fn_paren(ds) > 0 && !(ds[0] == "using" || ds[0] == "typedef" || ds[0] == "static_assert")) handle_function(d, cls, false);
+                    const int fp = fn_paren(ds);
+                    // `T name(16);` / `T name("x");` is a variable with a parenthesised initialiser, not a function declaration
+                    const bool paren_init = fp > 0 && size_t(fp) + 1 < ds.size() &&
+                                            (std::isdigit((unsigned char)ds[size_t(fp) + 1][0]) || ds[size_t(fp) + 1] == "\"\"" || ds[size_t(fp) + 1] == "''" || ds[size_t(fp) + 1] == "-");
+                    if (fp > 0 && !paren_init && !(ds[0] == "using" || ds[0] == "typedef" || ds[0] == "static_assert")) handle_function(d, cls, false);
                     else record_var(d, cls.empty() ? "" : "class:" + cls);
                 }
                 d.clear();
@@ -584,7 +588,7 @@ static std::vector<std::vector<double>> rng_run(int nthreads, const std::vector<
 }
 
 static void part_rng(vh::Rng& g, bool thorough) {
-    const int ncases = thorough ? 120 : 24;
+    const int ncases = thorough ? 400 : 40;
     for (int c = 0; c < ncases; ++c) {
         const int nt = (c < 15) ? 2 + c : g.range(2, 16);
         const int nev = g.range(nt, thorough ? 60 : 30);
@@ -830,7 +834,7 @@ static void part_mix(vh::Rng& g, uint64_t seed, bool thorough) {
     for (auto& s : shared_main) out.stat(std::string("shared_kind_") + s.desc.substr(0, s.desc.find('(')));
     out.stat("shared_plan_objects", (long long)shared_main.size());
 
-    const int nscen = thorough ? 150 : 14;
+    const int nscen = thorough ? 2500 : 200;
     for (int sc = 0; sc < nscen; ++sc) {
         // thread counts: quick covers 2,3,4,8,16 and random ones; thorough every count in 2..16 many times
         int nt;
@@ -898,6 +902,14 @@ static void part_mix(vh::Rng& g, uint64_t seed, bool thorough) {
             } else {
                 out.stat("programs_with_exception");
             }
+        }
+        {   // CORR: the sharing pattern of this scenario is admitted by the model's table (premise `exclusive` of the theorems)
+            std::string lhs = "scenario " + std::to_string(nt);
+            for (auto& p : progs) {
+                lhs += " " + std::to_string(p.size());
+                for (auto& o : p) lhs += " " + op_str(o);
+            }
+            out.corr(lhs, "1");
         }
         out.stat("scenarios");
         out.stat("threads_" + std::to_string(nt));
